@@ -80,6 +80,18 @@ class Gir:
         if k == 'block':
             # block evaluating to a parser: { <stmts>; expr }
             if e.get('expr') is not None:
+                if e.get('inl') and e.get('stmts'):
+                    # a helper expanded at its call (verif/normalise.py): `let param = <argument>;` binds the helper's parser parameters to the caller's parsers
+                    ctx = dict(ctx, env=dict(ctx['env']))
+                    for st in e['stmts']:
+                        st = peel(st)
+                        if st.get('k') == 'let' and st.get('init') is not None and (st.get('pat') or {}).get('k') == 'p_bind':
+                            ty_ = st['pat'].get('t') or st['init'].get('t') or ''
+                            if 'Parser' in ty_ or 'ErrMode' in ty_ or 'fn(' in ty_ or peel(st['init']).get('k') in ('mcall', 'closure', 'path', 'call'):
+                                try:
+                                    ctx['env'][st['pat']['name']] = self.conv(st['init'], ctx)
+                                except Exception:
+                                    pass
                 return self.conv(e['expr'], ctx)
             return T('top', why='block without value', l=l)
         if k == 'mcall':
